@@ -389,7 +389,7 @@ def rule_when(ctx: Ctx):
     tk = ctx.fn("Listeners._take_callback")
     rec = False
     handler_param = tk.params[2] if len(tk.params) > 2 else "names_not_found_handler"
-    for p in ctx.paths(tk, inline=None, exc_edges="none"):
+    for p in ctx.paths(tk, inline=None, exc_edges="none", loops_for_comps=True):
         evs = p.events
         hs = [e for e in p.calls() if show(e.term.func) == handler_param]
         lst = next((f"$l{e.idx}" for e in evs if e.kind == "alloc" and isinstance(e.term, ast.List)), None)
